@@ -118,8 +118,45 @@ class PyExec:
             o.append("True" if self.w.stacks[int(t[1])].ecu._is_message_acceptable(int(t[2])) else "False")
         elif op == 'ecu.dump':
             o.append(self.dump_core(int(t[1])))
+        elif op == 'dm1.send':
+            o.append(self.dm1_send(int(t[1]), parse_list(t[2]), parse_list(t[3])))
+        elif op == 'dm1.parse':
+            o.append(self.dm1_parse(parse_list(t[1])))
         else:
             raise ValueError(f"unknown op {op}")
+
+    KEYS = ['pl', 'awl', 'rsl', 'mil']
+
+    def dm1_send(self, pgn, lamps, flat):
+        j = self.w.j
+        sent = []
+
+        class FakeCa:
+            def send_pgn(self, dp, pf, ps, prio, data, *a, **k):
+                sent.append((dp, pf, ps, prio, [int(x) for x in data]))
+        d = j.Dm1(FakeCa())
+        d._pgn = pgn
+        lamp = {k: v for k, v in zip(self.KEYS, lamps)}
+        dtcs = [dict(spn=flat[i], fmi=flat[i + 1], oc=flat[i + 2]) for i in range(0, len(flat) - 2, 3)]
+        d._send(dict(cb=lambda: (lamp, dtcs)))
+        (dp, pf, ps, prio, data), = sent
+        return f"pgn {dp} {pf} {ps} {prio} {fmt_list(data)}"
+
+    def dm1_parse(self, data):
+        j = self.w.j
+        d = j.Dm1(None)
+        sentinel = object()
+        d._lamp_status = {'sentinel': sentinel}
+        got = []
+        d._subscribers.append(lambda sa, lamps, dtcs, ts: got.append((lamps, dtcs)))
+        d._receive(6, d._pgn, 1, 0, bytearray(data) if all(x < 256 for x in data) else list(data))
+        lamps, dtcs = got[0]
+        if 'pl' not in lamps:
+            return "reject"
+        flat = []
+        for x in dtcs:
+            flat += [x['spn'], x['fmi'], x['oc']]
+        return f"lamps {fmt_list([lamps[k] for k in self.KEYS])} dtcs {fmt_list(flat)}"
 
     def dump_core(self, i):
         st = self.w.stacks[i]
